@@ -139,11 +139,17 @@ class StreamSpec:
         if self.kind == 'rc' and not self.out_open and not self.in_open and not self.dead:
             self.dead, self.why = True, 'both-complete'
 
+    OWN_ENDINGS = ('error-out', 'cancel-out', 'both-complete', 'response-sent', 'completed-out')
+
     def out(self, fr):
-        """a frame this endpoint emits on the stream; returns a reason if it is illegal"""
+        """a frame this endpoint emits on the stream; returns a reason if it is illegal.  What the peer's terminal frame
+        forbids is not the emitter's concern (its frames may cross it in flight): only the endpoint's own ERROR, its
+        CANCEL as requester, its own completion and 'both directions complete' silence it."""
         t = fr['t']
-        if self.dead:
+        if self.dead and self.why in self.OWN_ENDINGS:
             return 'emits %s after the stream terminated (%s)' % (t, self.why)
+        if self.dead:
+            return None
         k, me = self.kind, self.iam
         allowed = {('rr', 'req'): {'Cancel'}, ('rs', 'req'): {'Cancel', 'RequestN'},
                    ('rc', 'req'): {'Cancel', 'RequestN', 'Payload', 'Error'},
@@ -159,7 +165,7 @@ class StreamSpec:
             elif fr.get('complete'):
                 self.out_open = False
                 if k == 'rs':
-                    self.dead, self.why = True, 'completed'
+                    self.dead, self.why = True, 'completed-out'
         elif t == 'Error':
             self.dead, self.why = True, 'error-out'
         elif t == 'Cancel':
@@ -221,7 +227,9 @@ def walk(sc):
                     whole = fr
                 if whole is not None:
                     wt = whole['t']
-                    if wt in REQ:
+                    if wt == 'RequestFnf':
+                        pass        # no stream: an ERROR answering a failed handler is all that can follow
+                    elif wt in REQ:
                         if sid not in specs or specs[sid].dead:
                             specs[sid] = StreamSpec(REQ[wt], 'resp', whole.get('complete', False))
                     elif sid in specs:
